@@ -27,3 +27,26 @@ where
         ops[pointer + 1].grow_left(suffix_len);
     }
 }
+
+/// control G9: dedup_by removes its FIRST closure argument; growing that one loses the items
+pub fn g9_bad_dedup(ops: &mut Vec<DiffOp>) {
+    ops.dedup_by(|prev, next| match (prev, next) {
+        (DiffOp::Delete { old_len, .. }, DiffOp::Delete { old_len: next_len, .. }) => {
+            *old_len += *next_len;
+            true
+        }
+        _ => false,
+    });
+}
+
+/// silent twin of G9: the retained (second) argument grows
+pub fn g9_good_dedup(ops: &mut Vec<DiffOp>) {
+    ops.dedup_by(|later, kept| match (later, kept) {
+        (DiffOp::Delete { old_len: later_len, .. }, DiffOp::Delete { old_len, .. }) => {
+            *old_len += *later_len;
+            true
+        }
+        _ => false,
+    });
+    ops.retain(|op| !op.is_empty());
+}
